@@ -33,7 +33,8 @@ GChunk == \E n \in 1..Min(need - got, StreamLen - pos) :
 GEof == Eof /\ hist' = Append(hist, [op |-> "eof"]) /\ UNCHANGED cuts
 GBlock == Block /\ hist' = Append(hist, [op |-> "block"]) /\ UNCHANGED cuts
 GSilence == Silence /\ hist' = Append(hist, [op |-> "silence"]) /\ UNCHANGED cuts
-GNext == GAccept \/ GChunk \/ GEof \/ GBlock \/ GSilence
+GConnected == Connected /\ hist' = Append(hist, [op |-> "connected"]) /\ UNCHANGED cuts
+GNext == GAccept \/ GChunk \/ GEof \/ GBlock \/ GSilence \/ GConnected
 
 Emit == (~Active) => PrintT("BEH " \o ToJson([cfg |-> cfg, ev |-> hist]))
 
@@ -42,7 +43,7 @@ Emit == (~Active) => PrintT("BEH " \o ToJson([cfg |-> cfg, ev |-> hist]))
    if it differs); qlen = 29 is the query's wire length, 261 a raw payload. *)
 R(wf) == [GoodReply EXCEPT !.wf = wf]
 Case(a, q, m, len, pad, v, x, it, d) ==
-    [api |-> a, qlen |-> q, msg |-> m, L |-> len, pad |-> pad, v |-> v, extra |-> x, it |-> it, deadline |-> d, tz |-> "-"]
+    [api |-> a, qlen |-> q, msg |-> m, L |-> len, pad |-> pad, v |-> v, extra |-> x, it |-> it, deadline |-> d, tz |-> "-", qop |-> "QUERY", conn |-> "given"]
 
 \* receive side, the good 45-octet reply: every chunking within the cut budget
 GRecvGood == {Case("recv", 29, GoodReply, 45, 0, 0, x, FALSE, 9) : x \in {0, 4}}
@@ -66,4 +67,15 @@ GTcp == {Case("tcp", 29, GoodReply, 45, 0, 0, 0, FALSE, d) : d \in {0, 3, 5}}
 GClock0 == {Case(a, 29, GoodReply, 45, 0, 0, 0, FALSE, d) : a \in {"send", "recv", "tcp"}, d \in {0, 1, 3}}
 \* ... and the zero timeouts (0, 0.0, tiny) for send_tcp, receive_tcp and tcp
 GClock == GClock0 \cup ZeroTimeouts(GClock0)
+\* the call makes its own connection (tcp, tls): set-up time counts against the deadline
+\* (v: for the synchronous tls() the set-up time is spent in the TCP connect (odd) or in the handshake (even))
+GOwn0 == {[c EXCEPT !.conn = "own", !.api = a, !.deadline = d, !.v = vv] :
+            c \in {Case("tcp", 29, GoodReply, 45, 0, 0, 0, FALSE, 0)}, a \in {"tcp", "tls"}, d \in {0, 3, 5, 7},
+            vv \in {0, 1}}
+GOwn == GOwn0 \cup ZeroTimeouts(GOwn0)
+\* other kinds of message sent: opcode must match for each; for UPDATE the zone section may be left out
+GOpKinds == {GoodReply, [GoodReply EXCEPT !.opm = FALSE], [GoodReply EXCEPT !.idm = FALSE], [GoodReply EXCEPT !.qr = FALSE],
+             [GoodReply EXCEPT !.qm = "caseVariant"]}
+GOps == {[Case(a, 29, m, 45, 0, 0, 0, FALSE, 9) EXCEPT !.qop = q] :
+           a \in {"recv", "tcp"}, m \in GOpKinds, q \in {"NOTIFY", "STATUS", "UPDATE"}}
 =============================================================================
